@@ -30,6 +30,10 @@ func (c *c08Case) base() string {
 	switch c.Kind {
 	case "select":
 		return "select * where value = 'y'"
+	case "select-alias":
+		// select fields that the filter names (and so has computed for the pairs it
+		// saw, rejected ones included) before the limit cuts the accepted ones
+		return "select key, upper(key) as uk, value as v where v = 'y' & uk != 'ZZ'"
 	case "ordered":
 		return "select key, value where value = 'y' order by key desc"
 	case "ordered-ties":
@@ -104,7 +108,7 @@ func (c08) Info() core.Info {
 	}
 }
 
-var c08Kinds = []string{"select", "ordered", "aggr", "aggr-ordered", "delete", "ordered-ties", "delete-in", "aggr-groups", "aggr-groups-ordered", "aggr-all", "aggr-all-ordered", "select-in"}
+var c08Kinds = []string{"select", "ordered", "aggr", "aggr-ordered", "delete", "ordered-ties", "delete-in", "aggr-groups", "aggr-groups-ordered", "aggr-all", "aggr-all-ordered", "select-in", "select-alias"}
 
 type c08Unit struct {
 	kind string
@@ -285,6 +289,10 @@ func c08RunUnlimited(c *c08Case) *c08Unlimited {
 	switch c.Kind {
 	case "select", "select-in":
 		want = drv.PairsRows(acc)
+	case "select-alias":
+		for _, p := range acc {
+			want = append(want, ref.T(p.K).Canon()+" | "+ref.T(strings.ToUpper(p.K)).Canon()+" | "+ref.T(p.V).Canon())
+		}
 	case "ordered":
 		rev := append([]store.Pair(nil), acc...)
 		sort.Slice(rev, func(i, j int) bool { return rev[i].K > rev[j].K })
